@@ -4,6 +4,7 @@
 //   0 g8     gray8_image_t            3 rgb8p  rgb8_planar_image_t      6 g1  bit_aligned_image1_type<1,gray_layout_t>
 //   1 rgb8   rgb8_image_t             4 rgba8  rgba8_image_t
 //   2 bgr8   bgr8_image_t             5 rgb16  rgb16_image_t
+//   (second list "B", compiled with -DC14_LIST_B, ops prefixed with `B`: g16 argb8 rgba8 cmyk8 rgb16 rgb16p)
 //   L6 = L7 without g1 (used where an operation on the concrete g1 object does not compile either, or the
 //   library documents "homogeneous pixels only"), LS = {g8, rgb8} (subset list for cross-list assignment).
 //
@@ -28,10 +29,18 @@ namespace c14 {
 
 using g1_image_t = gil::bit_aligned_image1_type<1, gil::gray_layout_t>::type;
 
+#ifndef C14_LIST_B
 using L7 = gil::any_image<gil::gray8_image_t, gil::rgb8_image_t, gil::bgr8_image_t, gil::rgb8_planar_image_t,
                           gil::rgba8_image_t, gil::rgb16_image_t, g1_image_t>;
 using L6 = gil::any_image<gil::gray8_image_t, gil::rgb8_image_t, gil::bgr8_image_t, gil::rgb8_planar_image_t,
                           gil::rgba8_image_t, gil::rgb16_image_t>;
+#else
+// second representative list ("B", op lines prefixed with `B`): 16-bit gray, a non-reversal layout permutation (argb),
+// a fourth colour space (cmyk), 16-bit interleaved and planar rgb.  index: 0 g16  1 argb8  2 rgba8  3 cmyk8  4 rgb16  5 rgb16p
+using L7 = gil::any_image<gil::gray16_image_t, gil::argb8_image_t, gil::rgba8_image_t, gil::cmyk8_image_t,
+                          gil::rgb16_image_t, gil::rgb16_planar_image_t>;
+using L6 = L7;
+#endif
 using LS = gil::any_image<gil::gray8_image_t, gil::rgb8_image_t>;
 
 template <typename Img> struct info;
@@ -42,6 +51,10 @@ template <> struct info<gil::rgb8_planar_image_t> { static const char* name() { 
 template <> struct info<gil::rgba8_image_t>       { static const char* name() { return "rgba8"; } static constexpr int depth = 8;  };
 template <> struct info<gil::rgb16_image_t>       { static const char* name() { return "rgb16"; } static constexpr int depth = 16; };
 template <> struct info<g1_image_t>               { static const char* name() { return "g1"; }    static constexpr int depth = 1;  };
+template <> struct info<gil::gray16_image_t>       { static const char* name() { return "g16"; }    static constexpr int depth = 16; };
+template <> struct info<gil::argb8_image_t>        { static const char* name() { return "argb8"; }  static constexpr int depth = 8;  };
+template <> struct info<gil::cmyk8_image_t>        { static const char* name() { return "cmyk8"; }  static constexpr int depth = 8;  };
+template <> struct info<gil::rgb16_planar_image_t> { static const char* name() { return "rgb16p"; } static constexpr int depth = 16; };
 
 template <typename T> struct type_c { using type = T; };
 
@@ -135,6 +148,13 @@ template <typename View> void toggle_at(View const& v, std::ptrdiff_t x, std::pt
     auto c = gil::at_c<0>(r);                 // channel value (proxy reference for bit-aligned)
     uint64_t cur = static_cast<uint64_t>(gil::at_c<0>(r));
     gil::at_c<0>(r) = static_cast<typename gil::channel_traits<typename std::decay<decltype(c)>::type>::value_type>(cur ^ 1ull);
+}
+
+// op words without the list selector `B`
+inline std::vector<std::string> op_words(std::string const& line) {
+    auto a = hv::words(line);
+    if (!a.empty() && a[0] == "B") a.erase(a.begin());
+    return a;
 }
 
 inline std::string exc_name(std::exception const& e) {
